@@ -40,6 +40,7 @@ var crashPoints = []struct {
 	{"broker-plugin-dial", "grpc-nomux"},
 	{"during-stdio", "all"},
 	{"extra-stdout", "all"},
+	{"attached-before-connect", "grpc-nomux"},
 }
 
 var c03Seq int64
@@ -60,7 +61,85 @@ func timed(d time.Duration, f func() error) (string, time.Duration) {
 	return "ok", el
 }
 
+// runAttachedCase: a second client attaches (ReattachConfig) to a running gRPC plugin, the plugin dies before that
+// client has connected, then the client connects and does a host-side broker Accept: everything must return in
+// bounded time, the Accept with an error.
+func runAttachedCase(c *crashCase) (impl, pred string) {
+	work := os.Getenv("VERIF_WORK")
+	base := filepath.Join(work, fmt.Sprintf("c03-%d-%d", os.Getpid(), atomic.AddInt64(&c03Seq, 1)))
+	os.MkdirAll(base, 0o755)
+	defer os.RemoveAll(base)
+	kc := kitServeCfg{Sets: map[string]string{"3": "grpc"}, GRPCServer: true}
+	cmd := kitCmd(kc, "TMPDIR="+base)
+	launcher := plugin.NewClient(&plugin.ClientConfig{
+		HandshakeConfig: kitHandshake(), VersionedPlugins: kitHostSets(map[int]string{3: "grpc"}, nil, nil),
+		AllowedProtocols: []plugin.Protocol{plugin.ProtocolGRPC}, Cmd: cmd, Logger: nullLogger(), StartTimeout: 4 * time.Second,
+	})
+	defer func() {
+		withTimeout(8*time.Second, func() error { launcher.Kill(); return nil })
+		if cmd.Process != nil {
+			cmd.Process.Kill()
+		}
+	}()
+	if _, err := launcher.Start(); err != nil {
+		return "setup-error", "FAIL:setup-launch"
+	}
+	client := plugin.NewClient(&plugin.ClientConfig{
+		HandshakeConfig: kitHandshake(), Plugins: kitHostSets(map[int]string{3: "grpc"}, nil, nil)[3],
+		AllowedProtocols: []plugin.Protocol{plugin.ProtocolGRPC}, Reattach: launcher.ReattachConfig(), Logger: nullLogger(),
+	})
+	defer withTimeout(8*time.Second, func() error { client.Kill(); return nil })
+	var fails []string
+	r, el := timed(12*time.Second, func() error { _, err := client.Start(); return err })
+	if r != "ok" {
+		return "setup-error", "FAIL:setup-attach-" + r
+	}
+	// the plugin dies now; wait until the process is gone
+	cmd.Process.Kill()
+	waitDead(cmd.Process.Pid, 3*time.Second)
+	for i := 0; i < 200 && !launcher.Exited(); i++ {
+		time.Sleep(5 * time.Millisecond)
+	}
+	late := "err"
+	var cp plugin.ClientProtocol
+	r, el = timed(12*time.Second, func() error { var err error; cp, err = client.Client(); return err })
+	if r == "hang" || r == "panic" || el > 6*time.Second {
+		fails = append(fails, "client-"+r)
+	}
+	if r == "ok" && cp != nil {
+		// connected "successfully" before the death was noticed: the broker call must still fail in bounded time
+		r, el = timed(12*time.Second, func() error {
+			raw, err := cp.Dispense("kit")
+			if err != nil {
+				return err
+			}
+			return raw.(*kitGRPCClient).AcceptOnce()
+		})
+		late = r
+		if r == "hang" || r == "panic" {
+			fails = append(fails, "broker-accept-after-crash-"+r)
+		} else if r == "ok" {
+			fails = append(fails, "broker-accept-ok-after-crash")
+		} else if el > 6*time.Second {
+			fails = append(fails, "broker-accept-after-crash-slow")
+		}
+	}
+	r, el = timed(10*time.Second, func() error { client.Kill(); return nil })
+	if r != "ok" || el > 5*time.Second {
+		fails = append(fails, "kill-"+r)
+	}
+	impl = fmt.Sprintf("start=ok client=any latecb=%s kill=%s", late, r)
+	pred = "ok"
+	if len(fails) > 0 {
+		pred = "FAIL:" + fails[0]
+	}
+	return impl, pred
+}
+
 func runCrashCase(c *crashCase) (impl, pred string) {
+	if c.point == "attached-before-connect" {
+		return runAttachedCase(c)
+	}
 	work := os.Getenv("VERIF_WORK")
 	base := filepath.Join(work, fmt.Sprintf("c03-%d-%d", os.Getpid(), atomic.AddInt64(&c03Seq, 1)))
 	os.MkdirAll(base, 0o755)
